@@ -314,6 +314,22 @@ def check(pid, tier):
                         broken.append({"file": prop_file, "line": 0,
                                        "error": "theorem %s depends on non-standard axiom %s" % (thm, a)})
 
+    # thorough tier: independent re-check of the compiled property file and everything it depends on
+    coqchk_report = None
+    if tier == "thorough" and mrc == 0 and not cfg.get("no_coqchk"):
+        prop_file = [f for f in cfg["proof_files"] if f.startswith("Properties/")][0]
+        mod = "V." + prop_file[:-2].replace("/", ".")
+        with Lock():
+            crc, cout = sh(["coqchk", "-silent", "-o", "-Q", COQ, "V", mod], cwd=COQ, timeout=cfg.get("coqchk_timeout", 2400))
+        m = re.search(r"\* Axioms:\s*(.*?)\n\s*\n", cout + "\n\n", re.S)
+        ax = m.group(1).strip() if m else "?"
+        coqchk_report = {"exit": crc, "axioms": ax,
+                         "type_in_type": "relying on type-in-type: <none>" in cout,
+                         "positivity_assumed_none": "positivity is assumed: <none>" in cout}
+        if crc != 0 or ax != "<none>" and not all(a.strip().split(".")[-1] in STD_AXIOMS for a in ax.split()):
+            proof_ok = False
+            broken.append({"file": prop_file, "line": 0, "error": "coqchk: exit %d, axioms: %s; %s" % (crc, ax, cout[-400:])})
+
     # model-correspondence cases inside the kernel
     mism = []
     shard_errs = []
@@ -409,6 +425,7 @@ def check(pid, tier):
             "fixed_entries": fixed,
             "notes": result.get("notes", []) + notes,
             "tree": th,
+            "coqchk": coqchk_report,
         },
         "assumptions": cfg.get("assumptions", []),
         "wall_s": round(time.time() - t0, 2),
